@@ -143,6 +143,10 @@ def comp : Component where
       -- white-box jump of a NAT's port counter (reaches port exhaustion without 16384 datagrams)
       fin (st.n.modRouter (nat! r) (fun x => { x with nat := x.nat.map (fun t => { t with counter := nat! v }) })) "-" "*" "natctr "
     | ["adv", ms] => fin (step st.n (.adv (nat! ms))) "-" "*" "adv "
+    | "conc" :: "#" :: kvs =>
+      -- the concurrent part (real router goroutines): the harness' own tally of what arrived
+      let bad := kvs.filter (fun x => match x.splitOn "=" with | [_, v] => v != "0" | _ => true)
+      (st, line4 "conc" "-" (if bad.isEmpty then "conc" else "concurrent-run:" ++ String.intercalate "," bad) "concurrent ")
     | ["end"] =>
       -- no silent loss: whatever the (proved) model delivered, the implementation must have delivered
       let cnt (l : List (List UInt8)) (p : List UInt8) : Nat := (l.filter (· == p)).length
